@@ -66,8 +66,13 @@ func guardedCount(p *core.Prog, env *r10env, closure *ssa.Function, cf *countedF
 	if cnt == nil {
 		return "n/a"
 	}
-	// (a) stores into the count: -1, and len(P) under `if flag`
-	var slicePrm, flagPrm *ssa.Parameter
+	// (a) stores into the count: -1, and len(S) under `if F`, with S and F parameters of the parent or fields of
+	// one struct parameter
+	type comp struct {
+		root ssa.Value
+		path string
+	}
+	var sliceC, flagC *comp
 	refs := cnt.Referrers()
 	if refs == nil {
 		return "n/a"
@@ -84,34 +89,44 @@ func guardedCount(p *core.Prog, env *r10env, closure *ssa.Function, cf *countedF
 			continue
 		}
 		root, _ := lenRoot(st.Val)
-		prm, _ := root.(*ssa.Parameter)
-		if prm == nil {
+		var sc *comp
+		if root != nil {
+			if rt, pth, ok := resolveRoot(root, 0); ok {
+				if _, isPrm := rt.(*ssa.Parameter); isPrm {
+					sc = &comp{rt, pth}
+				}
+			}
+		}
+		if sc == nil {
 			return "(a) the captured count is set to something other than -1 or len(<slice parameter>)"
 		}
-		slicePrm = prm
-		// dominated by the true edge of If(<bool parameter>)
+		sliceC = sc
+		// dominated by the true edge of If(<bool parameter or bool field of a parameter>)
 		guarded := false
 		for _, b := range parent.Blocks {
 			ifi, ok := b.Instrs[len(b.Instrs)-1].(*ssa.If)
 			if !ok {
 				continue
 			}
-			fp, ok := ifi.Cond.(*ssa.Parameter)
+			rt, pth, ok := resolveRoot(ifi.Cond, 0)
 			if !ok {
 				continue
 			}
+			if _, isPrm := rt.(*ssa.Parameter); !isPrm {
+				continue
+			}
 			if b.Succs[0].Dominates(st.Block()) && len(b.Succs[0].Preds) == 1 {
-				guarded, flagPrm = true, fp
+				guarded, flagC = true, &comp{rt, pth}
 			}
 		}
 		if !guarded {
-			return "(a) len(" + prm.Name() + ") is stored into the captured count without the guard of a bool parameter"
+			return "(a) the length of the folder slice is stored into the captured count without the guard of a bool parameter"
 		}
 	}
-	if slicePrm == nil || flagPrm == nil {
+	if sliceC == nil || flagC == nil {
 		return "n/a"
 	}
-	// (b) the members are produced by one P* non-terminal: a closure made by F(slicePrm) that calls each entry once
+	// (b) the members are produced by one P* non-terminal: a closure made by F(slice) that calls each entry once
 	if len(cf.pairNT) != 1 {
 		return fmt.Sprintf("(b) the members are produced by %d pair folders, expected exactly one over the counted slice", len(cf.pairNT))
 	}
@@ -134,16 +149,36 @@ func guardedCount(p *core.Prog, env *r10env, closure *ssa.Function, cf *countedF
 		mb = vals[0]
 	}
 	mcall, _ := mb.(*ssa.Call)
-	if mcall == nil || mcall.Common().StaticCallee() == nil || len(mcall.Common().Args) != 1 || mcall.Common().Args[0] != ssa.Value(slicePrm) {
-		return "(b) the member folder is not built by a call F(" + slicePrm.Name() + ") over the counted slice"
+	if mcall == nil || mcall.Common().StaticCallee() == nil || len(mcall.Common().Args) != 1 {
+		return "(b) the member folder is not built by a call F(<the counted slice>)"
+	}
+	if rt, pth, ok := resolveRoot(mcall.Common().Args[0], 0); !ok || rt != sliceC.root || pth != sliceC.path {
+		return "(b) the member folder is not built by a call F(<the counted slice>) over the slice whose length is announced"
 	}
 	builder := mcall.Common().StaticCallee()
 	if why := callsEachEntryOnce(builder); why != "" {
 		return "(b) " + core.FuncKey(builder) + ": " + why
 	}
-	// (c) callers pass results #0/#1 of one collector call
+	// (c) callers pass the slice and the flag as components of the result of one collector call
 	var collector *ssa.Function
+	collSlice, collFlag := "", ""
 	callers := 0
+	argComp := func(args []ssa.Value, c *comp) (ssa.Value, string, bool) {
+		for i, prm := range parent.Params {
+			if ssa.Value(prm) != c.root || i >= len(args) {
+				continue
+			}
+			rt, pth, ok := resolveRoot(args[i], 0)
+			if !ok {
+				return nil, "", false
+			}
+			if c.path != "" {
+				pth += "." + c.path
+			}
+			return rt, pth, true
+		}
+		return nil, "", false
+	}
 	for _, g := range p.ModFuncs() {
 		for _, b := range g.Blocks {
 			for _, in := range b.Instrs {
@@ -153,28 +188,19 @@ func guardedCount(p *core.Prog, env *r10env, closure *ssa.Function, cf *countedF
 				}
 				callers++
 				args := c.Common().Args
-				var si, fi int = -1, -1
-				for i, prm := range parent.Params {
-					if prm == slicePrm {
-						si = i
-					}
-					if prm == flagPrm {
-						fi = i
-					}
+				r0, p0, ok0 := argComp(args, sliceC)
+				r1, p1, ok1 := argComp(args, flagC)
+				if !ok0 || !ok1 || r0 != r1 || p0 == p1 {
+					return "(c) " + core.FuncKey(g) + " does not pass the slice and the flag as results of one call"
 				}
-				e0, ok0 := args[si].(*ssa.Extract)
-				e1, ok1 := args[fi].(*ssa.Extract)
-				if !ok0 || !ok1 || e0.Tuple != e1.Tuple || e0.Index != 0 || e1.Index != 1 {
-					return "(c) " + core.FuncKey(g) + " does not pass the slice and the flag as results #0/#1 of one call"
-				}
-				cc, _ := e0.Tuple.(*ssa.Call)
+				cc, _ := r0.(*ssa.Call)
 				if cc == nil || cc.Common().StaticCallee() == nil {
 					return "(c) the collector is not a static call"
 				}
-				if collector != nil && collector != cc.Common().StaticCallee() {
+				if collector != nil && (collector != cc.Common().StaticCallee() || collSlice != p0 || collFlag != p1) {
 					return "(c) different collectors feed " + core.FuncKey(parent)
 				}
-				collector = cc.Common().StaticCallee()
+				collector, collSlice, collFlag = cc.Common().StaticCallee(), p0, p1
 			}
 		}
 	}
@@ -182,7 +208,7 @@ func guardedCount(p *core.Prog, env *r10env, closure *ssa.Function, cf *countedF
 		return "(c) no caller of " + core.FuncKey(parent) + " found"
 	}
 	// (d) the collector's flag discipline
-	builderH, why := collectorDiscipline(p, collector)
+	builderH, hFolder, hFlag, why := collectorDiscipline(p, collector, collFlag)
 	if why != "" {
 		return "(d) " + core.FuncKey(collector) + ": " + why
 	}
@@ -191,15 +217,26 @@ func guardedCount(p *core.Prog, env *r10env, closure *ssa.Function, cf *countedF
 	for _, b := range builderH.Blocks {
 		for _, in := range b.Instrs {
 			ret, ok := in.(*ssa.Return)
-			if !ok || len(ret.Results) < 2 {
+			if !ok {
 				continue
 			}
-			if cv, ok := constBool(ret.Results[1]); ok && !cv {
+			fl, zero, ok := returnComponent(ret, hFlag)
+			if !ok {
+				return fmt.Sprintf("(e) %s: the 'exactly one member' flag returned at %s cannot be followed", core.FuncKey(builderH), p.Pos(token.Pos(instrPos(ret))))
+			}
+			if zero {
+				continue
+			}
+			if cv, ok := constBool(fl); ok && !cv {
 				continue
 			}
 			n++
-			t, ok := env.typeOf(ret.Results[0])
-			if !ok || t != etP {
+			fv, fzero, ok := returnComponent(ret, hFolder)
+			var t etype
+			if ok && !fzero {
+				t, ok = env.typeOf(fv)
+			}
+			if !ok || fzero || t != etP {
 				return fmt.Sprintf("(e) %s returns 'exactly one member' at %s together with a folder of effect type %q (must be P)", core.FuncKey(builderH), p.Pos(token.Pos(instrPos(ret))), t)
 			}
 		}
@@ -291,6 +328,8 @@ type cdiClient struct {
 	bad     string
 	appends int
 	p       *core.Prog
+	// result components of the builder (folder, 'exactly one member' flag) and of the collector (its own flag)
+	folderPath, flagPath, outFlag string
 }
 
 func (k *cdiClient) Key(s cdiState) string { return fmt.Sprintf("%d|%v|%s", s.one, s.tainted, s.kf.key()) }
@@ -323,13 +362,9 @@ func (k *cdiClient) Phis(s cdiState, blk *ssa.BasicBlock, pred int) cdiState {
 	}
 	return s
 }
-func (k *cdiClient) fromBuilder(v ssa.Value, idx int) bool {
-	ex, ok := v.(*ssa.Extract)
-	if !ok || ex.Index != idx {
-		return false
-	}
-	c, ok := ex.Tuple.(*ssa.Call)
-	return ok && c.Common().StaticCallee() == k.builder
+func (k *cdiClient) fromBuilder(v ssa.Value, path string) bool {
+	ref, ok := resolveComp(v, 0)
+	return ok && ref.path == path && ref.call.Common().StaticCallee() == k.builder
 }
 func (k *cdiClient) Instr(s cdiState, in ssa.Instruction) (cdiState, bool, []cdiState) {
 	switch x := in.(type) {
@@ -339,7 +374,7 @@ func (k *cdiClient) Instr(s cdiState, in ssa.Instruction) (cdiState, bool, []cdi
 		}
 	case *ssa.Store:
 		// the folder goes into the argument array of append
-		if k.fromBuilder(x.Val, 0) {
+		if k.fromBuilder(x.Val, k.folderPath) {
 			k.appends++
 			if s.one != 1 {
 				s.tainted = true
@@ -356,7 +391,7 @@ func (k *cdiClient) Branch(s cdiState, cond ssa.Value, outcome bool) (cdiState, 
 		}
 		cond, outcome = u.X, !outcome
 	}
-	if k.fromBuilder(cond, 1) {
+	if k.fromBuilder(cond, k.flagPath) {
 		if outcome {
 			s.one = 1
 		} else {
@@ -366,10 +401,17 @@ func (k *cdiClient) Branch(s cdiState, cond ssa.Value, outcome bool) (cdiState, 
 	return s, true
 }
 func (k *cdiClient) Return(s cdiState, ret *ssa.Return) {
-	if len(ret.Results) < 2 || !s.tainted {
+	if !s.tainted {
 		return
 	}
-	fl := ret.Results[1]
+	fl, zero, ok := returnComponent(ret, k.outFlag)
+	if !ok {
+		k.bad = "the flag returned at " + k.p.Pos(token.Pos(instrPos(ret))) + " cannot be followed"
+		return
+	}
+	if zero {
+		return
+	}
 	if cv, ok := constBool(fl); ok && !cv {
 		return
 	}
@@ -379,33 +421,59 @@ func (k *cdiClient) Return(s cdiState, ret *ssa.Return) {
 	k.bad = "a path appends a folder that does not report exactly one member and still returns the flag as possibly true at " + k.p.Pos(token.Pos(instrPos(ret)))
 }
 
-func collectorDiscipline(p *core.Prog, g *ssa.Function) (*ssa.Function, string) {
-	// the builder: a static callee with (F, bool, error) results whose #0 is stored (appended)
+func collectorDiscipline(p *core.Prog, g *ssa.Function, outFlag string) (*ssa.Function, string, string, string) {
+	// the builder: a static callee one of whose result components is a folder that g stores (appends) and another a
+	// bool that g branches on
 	var builder *ssa.Function
+	folderPath, flagPath := "", ""
 	for _, b := range g.Blocks {
 		for _, in := range b.Instrs {
-			c, ok := in.(*ssa.Call)
-			if !ok || c.Common().StaticCallee() == nil {
-				continue
-			}
-			res := c.Common().StaticCallee().Signature.Results()
-			if res.Len() == 3 {
-				if bt, ok := res.At(1).Type().Underlying().(*types.Basic); ok && bt.Kind() == types.Bool {
-					builder = c.Common().StaticCallee()
+			switch x := in.(type) {
+			case *ssa.Store:
+				if ref, ok := resolveComp(x.Val, 0); ok && ref.call.Common().StaticCallee() != nil && p.InModule(ref.call.Common().StaticCallee()) {
+					if t := componentType(ref.call.Common().StaticCallee().Signature, ref.path); t != nil && isFuncOrPtrToFunc(t) {
+						if _, toLocalStruct := x.Addr.(*ssa.Alloc); !toLocalStruct {
+							builder, folderPath = ref.call.Common().StaticCallee(), ref.path
+						}
+					}
 				}
 			}
 		}
 	}
 	if builder == nil {
-		return nil, "no field builder with an 'exactly one member' result found"
+		return nil, "", "", "no field builder whose folder is appended found"
 	}
-	k := &cdiClient{num: newNumbering(), builder: builder, p: p}
+	for _, b := range g.Blocks {
+		ifi, ok := b.Instrs[len(b.Instrs)-1].(*ssa.If)
+		if !ok {
+			continue
+		}
+		cond := ifi.Cond
+		for {
+			u, ok := cond.(*ssa.UnOp)
+			if !ok || u.Op != token.NOT {
+				break
+			}
+			cond = u.X
+		}
+		if ref, ok := resolveComp(cond, 0); ok && ref.call.Common().StaticCallee() == builder {
+			if t := componentType(builder.Signature, ref.path); t != nil {
+				if bt, ok := t.Underlying().(*types.Basic); ok && bt.Kind() == types.Bool {
+					flagPath = ref.path
+				}
+			}
+		}
+	}
+	if flagPath == "" {
+		return nil, "", "", "no field builder with an 'exactly one member' result found"
+	}
+	k := &cdiClient{num: newNumbering(), builder: builder, p: p, folderPath: folderPath, flagPath: flagPath, outFlag: outFlag}
 	_, capped := WalkPaths[cdiState](k, g.Blocks[0], 0, cdiState{}, 200000, nil)
 	if capped {
-		return nil, "state cap hit"
+		return nil, "", "", "state cap hit"
 	}
 	if k.appends == 0 {
-		return nil, "the builder's folder is never appended"
+		return nil, "", "", "the builder's folder is never appended"
 	}
-	return builder, k.bad
+	return builder, folderPath, flagPath, k.bad
 }
